@@ -5,13 +5,13 @@ import SleapVerif.Model.BottomUp
 `sample <nNodes> <edges: n (u v)*> <cmsStride> <pafStride> <ts: n t*> <ratio> <weight> <minLine>
         <minPeaks: i <int> | f <rat>> <inputScale> <eff> <h> <w> <c> <paf: h*w*c values, (h,w,c) row-major>
         <peaks: n (gx gy val ch)*> <per edge: r | m n (i j)*>`
-  → `<ok | raise err> | cand n (e s d score)* | fsubs (chx chy (row col)^nT)* | rsubs (margin (row col)^nT)*
+  → `<ok | raise err> | cand n (e s d score)* | fsubs (chx chy (row col)^nT)* | rsubs ((row col mrow mcol)^nT)*
      | conn n (sn si dn di score)* | inst n ((idx|-1)^nNodes score)* | coords (x y | nan nan)*`
   `fsubs`/scores/grouping: the model at `Float` with the given `ts` (float32 `linspace` values);
   `rsubs`/`coords`: the same definitions at `Rat` with the exact `linspace` (margin = distance of the
-  nearest rounding decision from a tie).
+  rounding decision of that coordinate from a tie, `|2·frac − 1|`).
 
-`subs <stride> <h> <w> <ts: n t*> <n (e sx sy dx dy)*>` → per candidate (joined by ` | `) `chx chy (row col)^nT ; margin (row col)^nT`
+`subs <stride> <h> <w> <ts: n t*> <n (e sx sy dx dy)*>` → per candidate (joined by ` | `) `chx chy (row col)^nT ; (row col mrow mcol)^nT`
 
 `keeptop <k | none> <n score*>` → indices kept, in order
 -/
@@ -44,6 +44,10 @@ def errStr : GErr → String
 
 def subsStr (l : List LineSub) : String :=
   " ".intercalate (l.map fun s => s!"{s.row} {s.col}")
+
+/-- `row col mrow mcol` per point: subscripts of the exact run with their rounding margins -/
+def subsMStr (l : List LineSub) (ms : List (Rat × Rat)) : String :=
+  " ".intercalate ((l.zip ms).map fun x => s!"{x.1.row} {x.1.col} {ratStr x.2.1} {ratStr x.2.2}")
 
 def chStr (l : List LineSub) : String :=
   match l with
@@ -86,8 +90,7 @@ def handleSample (rest : List String) : String :=
     let rsubs := (Grouping.candidates (peaksQ.map (·.ch)) edges).map fun cd =>
       let src := imgQ.getD cd.2.1 (0, 0)
       let dst := imgQ.getD cd.2.2 (0, 0)
-      let m := (lineMargin flQ castQ ps src dst PQ.ts).getD 1
-      ratStr m ++ " " ++ subsStr (lineSubs flQ castQ ps h w cd.1 src dst PQ.ts)
+      subsMStr (lineSubs flQ castQ ps h w cd.1 src dst PQ.ts) (lineMargins flQ castQ ps src dst PQ.ts)
     let rsubsS := "rsubs " ++ " ".intercalate rsubs
     let candsF := scoreCands flF castF Float.sqrt PF pafF peaksF
     let candS := s!"cand {candsF.length} " ++ " ".intercalate
@@ -126,8 +129,7 @@ def handleSubs (rest : List String) : String :=
     " | ".intercalate (cds.map fun (e, sx, sy, dx, dy) =>
       let f := lineSubs flF castF ps h w e (toF sx, toF sy) (toF dx, toF dy) (ts.map toF)
       let q := lineSubs flQ castQ ps h w e (sx, sy) (dx, dy) tsQ
-      let m := (lineMargin flQ castQ ps (sx, sy) (dx, dy) tsQ).getD 1
-      chStr f ++ " " ++ subsStr f ++ " ; " ++ ratStr m ++ " " ++ subsStr q)
+      chStr f ++ " " ++ subsStr f ++ " ; " ++ subsMStr q (lineMargins flQ castQ ps (sx, sy) (dx, dy) tsQ))
 
 def handleKeepTop (rest : List String) : String :=
   let p : P _ := do
